@@ -95,7 +95,8 @@ fn replay_with(case: &Value, ctor: &str) -> Vec<Obs> {
                             let ok = if s.starts_with(TIMEOUT_PREFIX) { wkind == "timeout" }
                                      else if s == "No more." { wkind == "none" }
                                      else { wkind == "ans" && s == answer_text(&qt, &wans) };
-                            if constrained && !ok && (s.starts_with(TIMEOUT_PREFIX) != (wkind == "timeout")) { c23_ok = false; }
+                            // C23: solve reports the query's next answer, `No more.` or the timeout message -- nothing else
+                            if constrained && !ok { c23_ok = false; }
                             (ok, format!("{:?}", s))
                         }
                         Err(_) => (false, "PANIC".into()),
@@ -113,7 +114,9 @@ fn replay_with(case: &Value, ctor: &str) -> Vec<Obs> {
                             let wtexts: Vec<String> = wlist.iter().map(|a| answer_text(&qt, a)).collect();
                             let ok = if wto { timed_out && v.len() <= wtexts.len() && v[..] == wtexts[..v.len()] }
                                      else { !timed_out && v == wtexts };
-                            if constrained && timed_out != wto { c23_ok = false; }
+                            // C23: solve_all reports a prefix of the answer sequence (complete unless timed out), and the
+                            // timeout message exactly when the query's own timer fired
+                            if constrained && !ok { c23_ok = false; }
                             (ok, shown)
                         }
                         Err(_) => (false, "PANIC".into()),
@@ -122,7 +125,8 @@ fn replay_with(case: &Value, ctor: &str) -> Vec<Obs> {
             };
             capture::take();
             history.push_str(&format!(" {}{} -> {}", mode, if fire > 0 { format!("[timer fires before count_rules #{}]", fire) } else { String::new() }, got));
-            if constrained && !ok && all_ok {
+            // (a call during which the query's OWN timer fired is C23's matter, not C22's)
+            if constrained && !ok && all_ok && !wto && wkind != "timeout" {
                 all_ok = false;
                 first_bad = format!("episode {} call `{}`: reference {} / engine {}", ei + 1, mode,
                     match wkind { "ans" => format!("({})", show_vec(&wans)), "all" => format!("{:?}{}", wlist.iter().map(|a| show_vec(a)).collect::<Vec<_>>(), if wto { " + timeout" } else { "" }), k => k.to_string() }, got);
